@@ -2,6 +2,7 @@
 from engine import *
 from facts import strip_generics, callee_of
 import sym
+import scan
 import c12
 
 CONFIGS_QUICK = ["F_all"]
@@ -428,4 +429,10 @@ def r7_sources(ctx):
     consume.check(ctx, "R7")
 
 
-RULES = [("R1", r1_dispatch), ("R2", r2_eof_errors), ("R3", r3_scanners), ("R4", r4_delimiters), ("R5", r5_whitespace), ("R6", r6_accessors), ("R7", r7_sources)]
+def r8_comment_scan(ctx):
+    """check_comments must reject exactly the comments that contain `--`: the scan looks at the byte after each '-'"""
+    for cfg, F in ctx.facts.items():
+        scan.comment_scan(ctx, "R8", F, cfg)
+
+
+RULES = [("R1", r1_dispatch), ("R2", r2_eof_errors), ("R3", r3_scanners), ("R4", r4_delimiters), ("R5", r5_whitespace), ("R6", r6_accessors), ("R7", r7_sources), ("R8", r8_comment_scan)]
